@@ -23,8 +23,31 @@ type val struct {
 // produce as a value (a *raised* error); it is injected as a global.
 const raisedErrGlobal = "ERR_A_RAISED"
 
+// errors that wrap one another: a cause, an error that wraps it, one that wraps the wrapper, and an unrelated
+// error with the same text as the wrapper. Equality between them has to be symmetric and transitive like any other
+// (a comparison that follows the chain of causes in one direction only is not).
+var (
+	errCause    = errors.New("disk full")
+	errWrap     = fmt.Errorf("save failed: %w", errCause)
+	errWrapWrap = fmt.Errorf("request failed: %w", errWrap)
+	errSameText = errors.New("save failed: disk full")
+)
+
+func wrappedErrs() map[string]object.Object {
+	return map[string]object.Object{
+		"ERR_CAUSE":     object.NewError(errCause).WithRaised(false),
+		"ERR_WRAP":      object.NewError(errWrap).WithRaised(false),
+		"ERR_WRAPWRAP":  object.NewError(errWrapWrap).WithRaised(false),
+		"ERR_SAME_TEXT": object.NewError(errSameText).WithRaised(false),
+	}
+}
+
 func scriptGlobals() map[string]any {
-	return map[string]any{raisedErrGlobal: object.NewError(errors.New("a"))}
+	g := map[string]any{raisedErrGlobal: object.NewError(errors.New("a"))}
+	for k, v := range wrappedErrs() {
+		g[k] = v
+	}
+	return g
 }
 
 func lst(items ...object.Object) object.Object { return object.NewList(items) }
@@ -149,7 +172,11 @@ func pool() []val {
 		val{"set{1.0}", "{1.0}", object.NewSet([]object.Object{fl(1)})},
 		val{"err(a,raised)", raisedErrGlobal, object.NewError(errors.New("a"))},
 		val{"err(b)", `errors.new("b")`, object.NewError(errors.New("b")).WithRaised(false)},
+		val{"err(a)", `errors.new("a")`, object.NewError(errors.New("a")).WithRaised(false)},
 	)
+	for _, k := range []string{"ERR_CAUSE", "ERR_WRAP", "ERR_WRAPWRAP", "ERR_SAME_TEXT"} {
+		p = append(p, val{"err(" + k + ")", k, wrappedErrs()[k]})
+	}
 	return p
 }
 
